@@ -50,6 +50,7 @@ def worker_env(hclass):
     env['PYTHONHASHSEED'] = str(HASH_CLASSES[hclass])
     env['PYTHONPATH'] = str(VERIF)
     env['PYTHONDONTWRITEBYTECODE'] = '1'
+    env['PYTHONUTF8'] = '1'
     env.pop('PYTHONWARNINGS', None)
     return env
 
@@ -174,7 +175,9 @@ def handle_violations(pid, violations, do_minimise=True):
         v = vs[0]
         k = match_known(known, v)
         dig = v.get('digest') or 'x'
-        name = re.sub(r'[^A-Za-z0-9_.-]+', '_', f'{clause}-{dig}')[:80]
+        import hashlib
+        sig_h = hashlib.sha256(signature.encode()).hexdigest()[:6]
+        name = re.sub(r'[^A-Za-z0-9_.-]+', '_', f'{clause}-{dig}-{sig_h}')[:90]
         path = outdir / f'{name}.json'
         path.write_text(json.dumps(v, indent=1, sort_keys=True, default=str))
         final = path
